@@ -265,7 +265,20 @@ async def _sc_adapter(case: dict, inj: _Inject) -> dict:
         loop.call_later(case["lost_after"], transport.lose_connection, ConnectionResetError(104, "reset"))
     try:
         end = await _run_close(backend, adapter.aclose, inj)
-        facts = {"underlying": [("asyncio-transport", transport.is_closing())], "outer_closing": adapter.is_closing(), "second": None}
+        facts: dict[str, Any] = {"underlying": [("asyncio-transport", transport.is_closing())], "outer_closing": adapter.is_closing(), "second": None}
+        # whatever happened to the first close: once the connection is gone (here: the peer drops it), a second close from
+        # a task nobody cancelled must return promptly
+        transport.abort()
+        for _ in range(3):
+            await asyncio.sleep(0)
+        try:
+            facts["second"] = await _second_close(adapter)
+        except asyncio.CancelledError:
+            if asyncio.current_task().cancelling():  # type: ignore[union-attr]
+                raise
+            facts["second_error"] = "CancelledError"
+        except Exception as exc:  # noqa: BLE001
+            facts["second_error"] = type(exc).__name__
         return {"end": end, "facts": facts}
     finally:
         transport.abort()
@@ -401,6 +414,10 @@ def _judge(case: dict, r: dict, mode: str | None, k: int | None) -> None:
             )
     if facts.get("outer_closing") is False:
         raise Violation("not-closing", f"{case['path']}: is_closing() is False after the close task ended ({where['ended']})", **where)
+    if facts.get("second_error"):
+        raise Violation(
+            "second-close-failed", f"{case['path']}: a second close() from an uncancelled task raised {facts['second_error']} (first close {where['ended']})", **where
+        )
     sec = facts.get("second")
     if sec is not None:
         ticks, dt = sec
